@@ -1,3 +1,4 @@
+import WmModel.Props.C05Order
 import WmModel.Props.C05Prod
 import WmModel.Props.C05Live
 import WmModel.Props.C05Reg
@@ -25,3 +26,5 @@ import WmModel.Props.C05
 #print axioms Wm.GcProd.blocking_publish_returns_only_after_ack
 #print axioms Wm.GcProd.prod_witness
 #print axioms Wm.GcProd.prod_sender_done_waits_for_msub
+#print axioms Wm.GcSub.ended_sender_deliveries_first
+#print axioms Wm.GcSub.deliveries_in_exit_order
